@@ -316,6 +316,8 @@ step(Machine *M, const vop *o)
 				return -1000;
 			Aio &A = M->aios[ai];
 			nng_msg *m = mkmsg(M, a2);
+			if (m == nullptr)
+				return NNG_ENOMEM; // (only under fault injection)
 			A.kind = 1;
 			A.busy = true;
 			A.submissions++;
@@ -323,8 +325,10 @@ step(Machine *M, const vop *o)
 			nng_socket_send(S->s, A.a);
 			return -1000;
 		}
-		nng_msg *m  = mkmsg(M, a2);
-		int      rv = nng_sendmsg(S->s, m, form == 1 ? NNG_FLAG_NONBLOCK : 0);
+		nng_msg *m = mkmsg(M, a2);
+		if (m == nullptr)
+			return NNG_ENOMEM;
+		int rv = nng_sendmsg(S->s, m, form == 1 ? NNG_FLAG_NONBLOCK : 0);
 		if (rv != 0) {
 			M->n_failed_sends++;
 			if (!at_is_live(m))
@@ -394,11 +398,14 @@ step(Machine *M, const vop *o)
 		if (ai < 0)
 			return -1000;
 		Aio &A = M->aios[ai];
+		nng_msg *cm = n[3] == 's' ? mkmsg(M, a1) : nullptr;
+		if (n[3] == 's' && cm == nullptr)
+			return NNG_ENOMEM;
 		A.busy = true;
 		A.submissions++;
 		if (n[3] == 's') {
 			A.kind = 1;
-			nng_aio_set_msg(A.a, mkmsg(M, a1));
+			nng_aio_set_msg(A.a, cm);
 			nng_ctx_send(C->c, A.a);
 		} else {
 			A.kind = 2;
